@@ -97,7 +97,7 @@ class TLCResult:
 
 def tlc(cwd, module, cfg=None, workers=None, timeout=600, extra=(), javaopts=None, deadlock=None):
     meta = tempfile.mkdtemp(prefix="meta-", dir=cwd)
-    cmd = ["tlc", "-metadir", meta, "-workers", str(workers or min(NCPU, 14))]
+    cmd = ["tlc", "-metadir", meta, "-noGenerateSpecTE", "-workers", str(workers or min(NCPU, 14))]
     if cfg:
         cmd += ["-config", cfg]
     if deadlock is False:
